@@ -115,6 +115,11 @@ def data_ok(x):
 # ---------------------------------------------------------------- generators
 DATA_POOL = ["x", "1", "20051029101003.000[-5:EST]", "a b", "a\nb", "a  \r\n b", "&amp;", "AT&amp;T", "a&lt;b", ">", "a>b", "]", "]]", "x]]", "]]>", "a]]>b",
              "/", "</", "-12.50", "été", "中文", "\U0001f4a9", "![CDATA[", "a=b;c", "0", "'\"", "A", "/A"]
+# element data the tree must carry unchanged: sequences that Unicode normalisation (NFC/NFKC), case folding or a narrower notion of blank would alter
+WIDE_DATA = ["Cafe\u0301", "Caf\u00e9", "\u1100\u1161\u11a8", "\ud55c", "\u212b", "\u2126", "\u212a", "a\u0307\u0323", "a\u0323\u0307", "\ufa10", "\ufb01", "\u00b5",
+             "\U0001d11e", "\U0001f4b0 1,000", "a\u00a0b", "a\u3000b", "a\u2003\u2028b", "\u200bx", "x\u200b", "\ufeffx", "\u0645\u0631\u062d\u0628\u0627", "\u05e9\u05dc\u05d5\u05dd",
+             "\u0e2a\u0e27\u0e31\u0e2a\u0e14\u0e35", "\u65e5\u672c\u8a9e", "\uff21\uff22", "\u017fi\u0131\u0130", "stra\u00dfe", "e\u0301\u0301", "\u0041\u030a", "\u1e9b\u0323",
+             "x\u0085y", "x\x1cy", "\x7f", "\x01"]
 TAG_POOL = ["A", "B", "OFX", "STMTTRN", "CODE", "A.B", "_", "1", "X1", "INV401K", "A_B", "Z9.", "SCRIPT", "BR", "LINK", "META"]
 
 
@@ -137,9 +142,14 @@ def rand_tag(rng):
 
 def rand_data(rng):
     r = rng.random()
-    if r < 0.6:
+    if r < 0.45:
         return rng.choice([x for x in DATA_POOL if data_ok(x)])
-    alpha = "ab1 &;>]/[!-.\n\té " if r < 0.9 else "xy]>&"
+    if r < 0.62:
+        x = rng.choice(WIDE_DATA)
+        if rng.random() < 0.4:
+            x = x + rng.choice([" ", "\u00a0", "\u3000", ""]) + rng.choice(WIDE_DATA)
+        return x if data_ok(x) else "x"
+    alpha = "ab1 &;>]/[!-.\n\t\u00e9 " if r < 0.85 else ("xy]>&" if r < 0.93 else "e\u0301\u0323\u00a0\u3000\u212bK\u1161\u1100a")
     for _ in range(20):
         x = "".join(rng.choice(alpha) for _ in range(rng.randint(1, 10))).strip()
         if data_ok(x):
@@ -356,7 +366,9 @@ def impl_ofxtree(P, s, version=102):
         HEADERS = {v: bytes(str(make_header(version=v)), "ascii") for v in (102, 203)}
     t = P.OFXTree()
     try:
-        r = t.parse(io.BytesIO(HEADERS[version] + s.encode("ascii")))
+        if not s.isascii():
+            version = 203                      # OFXv2 bodies are UTF-8
+        r = t.parse(io.BytesIO(HEADERS[version] + s.encode("utf_8" if version >= 200 else "ascii")))
     except Exception as e:
         return (classify_exc(e), type(e).__name__)
     return ("ok", None if r is None else elem_to_tuple(r))
@@ -455,8 +467,15 @@ def deep_strings(rng, tier, deep):
 
 
 # =====================================================================================================
+def shape_only(t):
+    return (t[0], t[1] is not None, [shape_only(c) for c in t[2]])
+
+
 def classify_c02(rd, text, out):
     """name of the defect a failing rendering exhibits (key of known_findings)"""
+    want = tree_of(erase(rd))
+    if out[0] == "ok" and out[1] is not None and len(out[1]) == 3 and shape_only(out[1]) == shape_only(want):
+        return "element-data-altered"          # same tags, nesting and order; some element's text is not the document's
     toks = tokens_of(rd)
     cds = [t for t in toks if t[0] == "leaf" and t[2]]
     if cds:
@@ -577,6 +596,16 @@ def run(rep, tier, rng):
                         rd = ("agg", "R", "", [("leaf", "A", True, "", x, "", e1, w), ("leaf", "B", True, w2, y, "", e2, "")], "")
                         check_rendering(rd, "", "cdata-adjacent")
 
+    # ---------------- the data alphabet: every listed datum, plain and CDATA-wrapped, with and without end tag, padded with blanks ----------------
+    for x in WIDE_DATA + [y for y in DATA_POOL if data_ok(y)]:
+        if not data_ok(x):
+            raise RuntimeError("harness: %r is not in the data domain" % (x,))
+        for cd in ((False, True) if cdata_ok(x) else (False,)):
+            for end in (False, True):
+                pad = rng.choice(["", " ", "\n", "\u00a0", "\u3000 "])
+                rd = ("agg", "OFX", "", [("leaf", "NAME", cd, pad, x, pad, end, ""), ("leaf", "B", False, "", "1", "", False, "")], "")
+                check_rendering(rd, "", "data-alphabet")
+
     # ---------------- random documents x random renderings ----------------
     n_mid = 4000 if thorough else 700
     for _ in range(n_mid):
@@ -599,7 +628,7 @@ def run(rep, tier, rng):
     for s in list(texts):
         if k >= n_tree:
             break
-        if s.isascii() and "\r" not in s and s.strip():
+        if (s.isascii() or k % 3 == 0) and "\r" not in s and s.strip():
             k += 1
             o1, o2 = impl_parse(P, s), impl_ofxtree(P, s, 102 if k % 2 else 203)
             rep.count(("ofxtree", s), nontrivial=False, kind="via-OFXTree.parse")
